@@ -7,8 +7,8 @@ from . import gen, pool, stage, tlcrun
 from .common import log, scratch, Timer
 
 PARAMS = {
-    "quick": dict(nfam3=700, nfam4=350, nrand=250, nlayout=80, budget=600),
-    "thorough": dict(nfam3=12000, nfam4=6000, nrand=5000, nlayout=1500, budget=1500),
+    "quick": dict(nfam3=700, nfam4=350, nrand=250, nlayout=80, budget=600, nidiom=320, neps=300),
+    "thorough": dict(nfam3=12000, nfam4=6000, nrand=5000, nlayout=1500, budget=1500, nidiom=None, neps=None),
 }
 
 # small layout sub-grammars (rule LAYOUT) appended to a sample of grammars
@@ -44,6 +44,12 @@ def _jobs(tier, seed):
         lay = rng.choice(LAYOUTS)
         jobs.append({"g": g, "origin": "det", "start": "layout", "layout": lay, "budget": p["budget"]})
         jobs.append({"g": g, "origin": "det", "start": "main", "layout": lay, "budget": p["budget"]})
+    # hand-written list / optional idioms in sequence (gen.idiom_family)
+    for g in gen.idiom_family(limit=p["nidiom"]):
+        jobs.append({"g": g, "origin": "det", "start": "main", "budget": p["budget"]})
+    # lookahead propagation through chains of nullable nonterminals (gen.epschain_family)
+    for g in gen.epschain_family(limit=p["neps"]):
+        jobs.append({"g": g, "origin": "det", "start": "main", "budget": p["budget"]})
     rng = random.Random(7000003 * (seed + 1))
     k = 0
     while k < p["nrand"]:
